@@ -803,6 +803,47 @@ def r_chase_needle(cx):
     cx.count("R-CHASE-NEEDLE", "needle_pops", n)
 
 
+@rule("R-DEFAULT-LATEST", ["C04"])
+def r_default_latest(cx):
+    """A macro invocation is its expansion: for `inner = op x=$a(1)` invoked as `inner a=$b(5)` or `inner a=(5)` without a
+    `b`, the argument `a` falls back to 5, so x is 5. In `chase` the default met later in a chase (it was given further
+    out) therefore replaces the one met earlier: no assignment to the loop-carried default is guarded by a test of the
+    default so far (`default.is_empty()`) or by the loop-carried `a look-up is in progress` flag."""
+    import guards
+    f = cx.f.fn("op::parsed_parameters::chase")
+    n = 0
+    for lp in f.loops():
+        if lp.parent is not None:
+            continue
+        carried = f.loop_carried(lp.header)
+        tested = set()
+        for bb, t in f.calls():
+            if (f.callee(t) or "").endswith("str>::is_empty"):
+                a = mir.strip_refs(f.arg_terms(bb)[0])
+                if a[0] in ("loopphi", "phi") and isinstance(a[1], tuple) and a[1][1] in carried:
+                    tested.add(a[1][1])
+        defaults = [l for l in carried if l in tested and "str" in str(f.local_ty(l))]
+        flags = [l for l in carried if str(f.local_ty(l)) == "bool"]
+        for bb, i, s in f.all_stmts():
+            if not (s["k"] == "assign" and bb in lp.body and s["place"]["l"] in defaults and not s["place"].get("p")):
+                continue
+            n += 1
+            bad = None
+            for at, tv in guards.branch_facts(f, bb):
+                at = mir.strip_refs(at)
+                if at[0] == "call" and isinstance(at[1], str) and at[1].endswith("is_empty"):
+                    a = mir.strip_refs(at[2][0])
+                    if a[0] in ("loopphi", "phi") and isinstance(a[1], tuple) and a[1][1] in defaults:
+                        bad = "the default met so far being empty"
+                if at[0] in ("loopphi", "phi") and isinstance(at[1], tuple) and at[1][1] in flags:
+                    bad = "no look-up being in progress"
+            cx.ob("R-DEFAULT-LATEST", "chase/default%d" % (n - 1), bad is None,
+                  "a default met in the chase replaces the one met before" if bad is None else
+                  "chase records a default only on %s: for `inner = op x=$a(1)` invoked as `inner a=$b(5)` (or `a=(5)`) "
+                  "without b, x is 1 where the expansion `inner a=5` gives 5" % bad, cx.where(s.get("span")))
+    cx.count("R-DEFAULT-LATEST", "default_writes", n)
+
+
 @rule("R-FORWARD-SELF", ["C04"])
 def r_forward_self(cx):
     """RawParameters::next copies the arguments of a macro invocation into the map of caller values its body sees. An
@@ -822,6 +863,7 @@ def r_forward_self(cx):
         if src[0] == "refplace" and not src[3]:
             src = f.local_value(src[2], f.end_point(bb))
         filtered = []
+        consults = []
 
         def vis(y):
             clos = None
@@ -846,6 +888,8 @@ def r_forward_self(cx):
                             a2 = gg.arg_terms(b2)
                             if len(a2) > 1 and mir.strip_refs(a2[1])[0] == "const" and mir.strip_refs(a2[1])[2] in (("char", "$"), ("str", "$")):
                                 filtered.append(1)
+                        if (gg.callee(t2) or "").rsplit("::", 1)[-1] in ("contains_key", "get") and "BTreeMap" in (gg.callee(t2) or ""):
+                            consults.append(1)
             return True
         mir.walk(src, vis)
         ok = bool(filtered)
@@ -855,6 +899,12 @@ def r_forward_self(cx):
               "RawParameters::next merges the arguments of a macro invocation into the caller's values unfiltered: an "
               "argument forwarded under its own name (`inner:m a=$a`) replaces the caller's `a` by a reference to itself, "
               "and the nested macro reports `'a' not found`", cx.where(t["span"]))
+        if ok:
+            cx.ob("R-FORWARD-SELF", "next/extend%d/known-only" % (n - 1), bool(consults),
+                  "a self-reference is dropped only when the caller has a value for it" if consults else
+                  "RawParameters::next drops every argument forwarded under its own name, without asking whether the caller "
+                  "has a value for it: `inner:m a=$a(5)` invoked without `a` loses its default, and the nested macro reports "
+                  "`'a' not found` (or silently uses its own fallback)", cx.where(t["span"]))
     if n == 0:
         cx.ob("R-FORWARD-SELF", "next/extend", False, "anchor-missing: RawParameters::next does not merge maps with extend",
               cx.where(f.d["span"]))
